@@ -301,6 +301,43 @@ def g_mark(out):
     ob(out, 'proto::decoders#mark-set-once-after-eoo-lookahead', ok, why, witness={'sites': sites, 'why': why})
 
 
+def g_consumed(out):
+    """C11/C05/C07: the caching wrapper renumbers tell() when a mark drops its cache (pinned by the tests), so no decoder may
+    keep a tell() reading across the decoding of a nested element.  tell() is called in the decoders only (a) inside
+    _consumed() (contract ber.decoder::_consumed), (b) where the mark is set, (c) in the two ANY decoders, between reading
+    the mark and seeking back to it (no element is decoded in between: the statements are adjacent)."""
+    sites = []
+    for rel in ('pyasn1/codec/ber/decoder.py', 'pyasn1/codec/cer/decoder.py', 'pyasn1/codec/der/decoder.py'):
+        tree = parse(rel)
+        for fn in [x for x in ast.walk(tree) if isinstance(x, ast.FunctionDef)]:
+            for node in ast.walk(fn):
+                if isinstance(node, ast.Call) and isinstance(node.func, ast.Attribute) and node.func.attr == 'tell':
+                    sites.append((rel, fn.name, node.lineno))
+    bad = []
+    for rel, fname, line in sites:
+        if fname == '_consumed':
+            continue
+        if fname == '__call__':
+            continue          # the mark: obligation mark-set-once-after-eoo-lookahead
+        bad.append((rel, fname, line))
+    # the ANY decoders: `fullPosition = substrate.markedPosition; currentPosition = substrate.tell()` -- adjacent statements
+    tree = parse('pyasn1/codec/ber/decoder.py')
+    ok_any = []
+    for cls in [x for x in tree.body if isinstance(x, ast.ClassDef) and x.name == 'AnyPayloadDecoder']:
+        for fn in [x for x in cls.body if isinstance(x, ast.FunctionDef)]:
+            for node in ast.walk(fn):
+                body = getattr(node, 'body', None)
+                for blk in [b for b in (body, getattr(node, 'orelse', None)) if isinstance(b, list)]:
+                    for a, b in zip(blk, blk[1:]):
+                        if ast.unparse(a) == 'fullPosition = substrate.markedPosition' and \
+                                ast.unparse(b) == 'currentPosition = substrate.tell()':
+                            ok_any.append(('pyasn1/codec/ber/decoder.py', fn.name, b.lineno))
+    bad = [x for x in bad if x not in ok_any]
+    ob(out, 'proto::decoders#lengths-measured-with-consumed', not bad and len(ok_any) == 2,
+       'tell() readings that may be kept across a nested decode: %r' % (bad,) if bad else
+       'tell() only in _consumed(), at the mark, and next to the mark in the two ANY decoders', witness={'sites': bad})
+
+
 # ---- C12: `if LOG:` blocks are effect free (so that dropping them at extraction is sound) ------------
 # consuming stream access under `if LOG:` that is allowed, each with its justification
 LOG_EXEMPT = {
@@ -505,7 +542,12 @@ def g_value_funnel(out):
        witness={'sites': sites}, n=max(n, 1))
 
 
-GROUPS = {'value-funnel': g_value_funnel, 'mark': g_mark, 'decoder-tables': g_decoder_tables, 'dispatch': g_dispatch, 'errors': g_errors, 'protocol': g_protocol,
+def g_mark_and_positions(out):
+    g_mark(out)
+    g_consumed(out)
+
+
+GROUPS = {'value-funnel': g_value_funnel, 'mark': g_mark_and_positions, 'decoder-tables': g_decoder_tables, 'dispatch': g_dispatch, 'errors': g_errors, 'protocol': g_protocol,
           'log-blocks': g_log_blocks}
 
 
